@@ -255,7 +255,7 @@ def comment_text(rnd):
 
 def gen_line(rnd):
     """Returns (kind, text, has_trailing_comment)."""
-    ind = " " * rnd.choice([0, 2, 4, 4, 6, 8, 10, 12])
+    ind = " " * rnd.choice([0, 2, 4, 4, 6, 8, 10, 12, 12, 20, 28, 36, 44])
     r = rnd.random()
     if r < 0.22:
         t = ident(rnd)
@@ -336,6 +336,8 @@ def gen_line(rnd):
     if kind not in ("comment", "directive") and rnd.random() < 0.18:
         line += " " + comment_text(rnd)
         trailing = True
+    elif rnd.random() < 0.12:
+        line += " " * rnd.randint(1, 12)        # trailing blanks
     return kind, line, trailing
 
 
@@ -350,12 +352,17 @@ KEYS = {"statement": ", ", "directive": " ,)=", "comment": " .,",
         "unknown": " ,=+)"}
 
 
+KEYS = {"statement": ", ", "directive": " ,)=", "comment": " .,",
+        "unknown": " ,=+)"}
+
+
 def wrappable(line, limit):
     """The generator's guarantee, evaluated on the actual line: every run of
     characters that contains none of the limiter's documented break
     characters for this kind of line is short enough (limit - indent - 12)
     for *some* legal break to exist in every window.  Lines outside the
-    guarantee are counted and a failure on them is not judged."""
+    guarantee are counted and a failure on them is not judged (but see the
+    trailing-blank metamorphic monitor in check_text)."""
     if STAT.match(line):
         keys = KEYS["statement"]
     elif SENT.match(line):
@@ -394,6 +401,23 @@ def check_text(fll_cls, text, limit, part, meta, twin=False):
     try:
         out = fll.process(text)
     except Exception as err:
+        # metamorphic monitor: trailing blanks carry no meaning, so if the
+        # limiter wraps the same text without them it was asked to wrap
+        # wrappable text and must not fail on it
+        stripped = "\n".join(l.rstrip() for l in text.split("\n"))
+        if stripped != text:
+            try:
+                fll_cls(line_length=limit).process(stripped)
+                part.violation({
+                    "kind": "limiter_raised_only_with_trailing_blanks",
+                    "limit": limit, "mechanism": None,
+                    "what": "process() raised %s on %r but wraps the same "
+                            "text without its trailing blanks" % (
+                                type(err).__name__, text[:160]),
+                    "text": text})
+                return False
+            except Exception:
+                pass
         if not guaranteed:
             part.count("raised_outside_generator_guarantee")
             return False
@@ -473,6 +497,70 @@ def check_text(fll_cls, text, limit, part, meta, twin=False):
     return wrapped
 
 
+def check_rewrap(fll_cls, text, l1, l2, part):
+    """Text already wrapped at limit l1 is wrapped again at the smaller
+    limit l2 (continuation lines of directives / statements / comments are
+    themselves inputs): still the same program, every line <= l2."""
+    try:
+        out1 = fll_cls(line_length=l1).process(text)
+        want = canon(logical_lines(text))
+        if canon(logical_lines(out1)) != want:
+            return          # first pass already judged by check_text
+    except Exception:
+        return
+    if all(len(l) <= l2 for l in out1.split("\n")):
+        return
+    tc = any(stmt_part_len(l) < len(l) for l in text.split("\n")
+             if not l.lstrip().startswith("!"))
+    if tc:
+        return              # planted hazard: judged (with twin) elsewhere
+    part.count("rewrap_chains")
+    guaranteed = all(wrappable(l, l2) for l in out1.split("\n")
+                     if len(l) > l2)
+    try:
+        out2 = fll_cls(line_length=l2).process(out1)
+    except Exception as err:
+        if guaranteed:
+            part.violation({"kind": "limiter_raised_on_rewrap",
+                            "mechanism": None,
+                            "what": "re-wrap %d -> %d raised %s: %s" % (
+                                l1, l2, type(err).__name__, str(err)[:100]),
+                            "text": text})
+        else:
+            part.count("raised_outside_generator_guarantee")
+        return
+    long = [l for l in out2.split("\n") if len(l) > l2]
+    if long:
+        part.violation({"kind": "line_longer_than_limit_on_rewrap",
+                        "mechanism": None,
+                        "what": "re-wrap %d -> %d leaves a line of %d chars:"
+                                " %r" % (l1, l2, len(long[0]), long[0]),
+                        "text": text})
+    try:
+        got = canon(logical_lines(out2))
+    except JoinError as err:
+        part.violation({"kind": "rewrap_output_not_valid_free_form",
+                        "mechanism": None,
+                        "what": "re-wrap %d -> %d: %s at line %d: %r" % (
+                            l1, l2, err.msg, err.lineno,
+                            out2.split("\n")[max(0, err.lineno - 1):
+                                              err.lineno + 1]),
+                        "text": text})
+        return
+    if got != want:
+        k = 0
+        while k < min(len(want), len(got)) and want[k] == got[k]:
+            k += 1
+        part.violation({"kind": "rewrap_logical_lines_differ",
+                        "mechanism": None,
+                        "what": "re-wrap %d -> %d: logical line %d differs: "
+                                "want %r got %r" % (
+                                    l1, l2, k,
+                                    want[k] if k < len(want) else None,
+                                    got[k] if k < len(got) else None),
+                        "text": text})
+
+
 def batch(arg):
     import random
     from psyclone.line_length import FortLineLength
@@ -488,6 +576,8 @@ def batch(arg):
             kinds.append(k + ("+tc" if tr else ""))
         text = "\n".join(lines)
         limits = [40, 132] + rnd.sample(range(41, 132), 3)
+        l1 = rnd.choice([132, 120, 100, 80])
+        check_rewrap(FortLineLength, text, l1, rnd.randint(40, l1 - 15), part)
         for limit in limits:
             wrapped = check_text(FortLineLength, text, limit, part,
                                  {"kinds": kinds})
